@@ -126,6 +126,8 @@ TEST_RE = re.compile(r"Testing (\w+)\.\.\. ")
 def parse_transcript(text):
     """`nanoc --verbose` output -> (events for DriverTrace, per-test records [name, output, verdict, nfail])"""
     events, tests = [], []
+    text = re.sub(r"(?m)^\[FFI\] [^\n]*\n", "", text)        # --verbose chatter of the evaluator's FFI loader, not program output
+    text = re.sub(r"\[FFI\] Calling \w+ from [^\n]*\n", "", text)
     pos = 0
     lines_seen = set()
     def has(s): return s in text
@@ -140,6 +142,8 @@ def parse_transcript(text):
         for j, m in enumerate(ms):
             end = ms[j + 1].start() if j + 1 < len(ms) else len(body)
             seg = body[m.end():end]
+            if seg.startswith("SKIPPED"):          # "Testing f... SKIPPED (uses extern functions)": not run, does not gate
+                continue
             mp = re.search(r"(PASSED|FAILED)\n", seg)
             verdict = None; out = seg; nfail = 0
             # the verdict is the last PASSED/FAILED line of the segment before the (optional) indented report lines
